@@ -12,6 +12,12 @@ outf = os.path.join(mut, "checked.jsonl")
 done = set()
 if os.path.exists(outf):
     done = {json.loads(l)["id"] for l in open(outf)}
+def keys_of(out):
+    return {l.split()[1] for l in out.splitlines() if l.startswith("  VIOLATED") or l.startswith("  UNDECIDED")}
+# what the checker says about the unmodified checkout (it may predate a repair): subtracted from every mutant's report
+base = keys_of(subprocess.run([binp, "-repo", repo, "-verif", "/verif", "-rules", "all", "-no-evidence"],
+                              stdout=subprocess.PIPE, stderr=subprocess.STDOUT).stdout.decode(errors="replace"))
+print("baseline keys:", sorted(base))
 def run(i):
     m = ms[i]
     try:
@@ -21,9 +27,9 @@ def run(i):
         out = p.stdout.decode(errors="replace")
     except subprocess.TimeoutExpired:
         out = "TIMEOUT"
-    keys = sorted({l.split()[1] for l in out.splitlines() if l.startswith("  VIOLATED") or l.startswith("  UNDECIDED")})
+    keys = sorted(keys_of(out) - base)
     st = "detected" if keys else ("invalid" if "cannot analyse" in out else "silent")
-    return {"id": i, "status": st, "rules": sorted({k.split("|")[0] for k in keys}), "keys": keys[:4]}
+    return {"id": i, "status": st, "rules": sorted({k.split("|")[0] for k in keys}), "keys": keys[:6]}
 todo = [i for i in surv if i not in done]
 with cf.ThreadPoolExecutor(jobs) as ex, open(outf, "a") as f:
     for r in ex.map(run, todo):
